@@ -335,8 +335,13 @@ def gen_fleet_world(rng: random.Random, n_steps: int) -> Dict[str, Any]:
         requests.append({"id": f"r{k+1:02d}", "o": o, "d": d, "dep": rng.randrange(0, dt * n_steps * 3 // 4), "pax": 1,
                          "fleet": rng.choice(["fa", "fb"])})
     requests.sort(key=lambda r: (r["dep"], r["id"]))
-    return {"name": "fleet", "dt": dt, "start": 0, "end": dt * n_steps, "cancel": 600, "vehicles": vehicles, "requests": requests,
-            "stations": stations, "bases": bases, "fleets": fl, "focus": "fleet"}
+    w = {"name": "fleet", "dt": dt, "start": 0, "end": dt * n_steps, "cancel": 600, "vehicles": vehicles, "requests": requests,
+         "stations": stations, "bases": bases, "fleets": fl, "focus": "fleet"}
+    if rng.random() < 0.5:
+        # parked and base-charging vehicles are dispatchable too in this configuration
+        w["dispatcher"] = {"valid_dispatch_states": ["idle", "repositioning", "reservebase", "chargingbase"],
+                           "base_charging_range_km_threshold": rng.choice([0, 100])}
+    return w
 
 
 def gen_whatif_world(rng: random.Random, n_steps: int) -> Dict[str, Any]:
@@ -548,7 +553,7 @@ def gen_input_world(rng: random.Random, n_steps: int, dt: Optional[int] = None) 
             for s in named:
                 for (cid, _, _) in s["plugs"]:
                     if rng.random() < 0.8:
-                        prices.append({"time": ts, "target": s["id"], "charger_id": cid, "price": rng.choice([0.05, 0.11, 0.2, 0.35, 0.5])})
+                        prices.append({"time": ts, "target": s["id"], "charger_id": cid, "price": rng.choice([0.05, 0.11, 0.2, 0.35, 0.5, 0.0, 0.0])})      # free charging too
         key = "station_id"
     else:
         res = {"region_coarse": rng.choice([5, 6]), "region_search": 7, "region_fine": rng.choice([8, 9, 10])}[mode]
@@ -558,7 +563,7 @@ def gen_input_world(rng: random.Random, n_steps: int, dt: Optional[int] = None) 
             for g in named:
                 for cid in ("DCFC", "LEVEL_2"):
                     if rng.random() < 0.8:
-                        prices.append({"time": ts, "target": g, "charger_id": cid, "price": rng.choice([0.05, 0.11, 0.2, 0.35, 0.5])})
+                        prices.append({"time": ts, "target": g, "charger_id": cid, "price": rng.choice([0.05, 0.11, 0.2, 0.35, 0.5, 0.0, 0.0])})      # free charging too
         key = "geoid"
     prices.sort(key=lambda p: p["time"])
     return {"name": "inputs", "dt": dt, "start": start, "end": t_end, "cancel": cancel, "vehicles": vehicles, "requests": requests,
@@ -632,6 +637,11 @@ def gen_match_world(rng: random.Random, n_steps: int) -> Dict[str, Any]:
         preload = preload[:2]
         for r in later:
             r["o"] = lattice[rng.randrange(3)]
+    if rng.random() < 0.4:
+        # the charging threshold is a different number than the matching threshold (both default to 20 km)
+        disp["charging_range_km_threshold"] = rng.choice([5, 35])
+        if rng.random() < 0.5:
+            disp["matching_range_km_threshold"] = rng.choice([10, 30])
     w = {"name": "match", "dt": dt, "start": 0, "end": dt * n_steps, "cancel": 600, "vehicles": vehicles, "requests": later,
          "preload": preload, "stations": stations, "bases": bases, "focus": "match",
          "schedules": [("on", "00:00:00", "23:00:00"), ("off", "23:30:00", "23:40:00")],
